@@ -90,7 +90,8 @@ def main():
     mods = []
     for p in sorted(CLAIMED):
         pm = importlib.import_module("props." + p.lower())
-        for mname in list(pm.PROPS_MODULES) + ([pm.DRIVER[:-5].replace("/", ".")] if getattr(pm, "DRIVER", None) else []):
+        drvs = [getattr(pm, "DRIVER", None)] + list((getattr(pm, "DRIVERS", {}) or {}).values())
+        for mname in list(pm.PROPS_MODULES) + [d[:-5].replace("/", ".") for d in drvs if d]:
             if mname not in mods:
                 mods.append(mname)
     with open(os.path.join(VERIF, "lean", "TraitsVerif.lean"), "w") as f:
